@@ -175,10 +175,11 @@ func checkJSONConsumers(w *World, r *Result, rule string) int {
 
 func checkC09(w *World, r *Result) {
 	r.Explanation = "Decides structural necessary conditions: CONS every loop over struct fields is classified, and each json consumer (TypeScript, Dart x2, SQL validator) starts with the Exported() guard and keys only by JSONName(); FLW-C09a the json tag reaches JSONName's result only through a split at the first comma, a tag-derived result is dominated by a non-emptiness test of that very value, and the fallback is the Go field name; AGR-C09b Exported() returns false exactly under json==\"-\" or gomacro==\"ignore\" and otherwise returns go/types' Exported(); AGR-C09c embedded fields are flattened exactly when Embedded() and the analysed type is a struct, and field, tag and type of a kept field come from the same index. Does not decide: full agreement with encoding/json on embedded-field conflicts/shadowing, nor invariance of the analysis itself (it analyses every field)."
-	r.Rules = []string{"CONS json consumers", "FLW-C09a tag options", "AGR-C09b ignore rules", "AGR-C09c flattening", "ALIAS-APPEND", "SEP-INDEX"}
+	r.Rules = []string{"CONS json consumers", "FLW-C09a tag options", "AGR-C09b ignore rules", "AGR-C09c flattening", "ALIAS-APPEND", "SEP-INDEX", "ALIAS-STORE"}
 	// an ignored field in first or last position must not move a separator of the emitted text
 	sepIndexRule(w, r, func(rel string) bool { return strings.HasPrefix(rel, "generator") })
 	aliasAppendRule(w, r, func(rel string) bool { return rel == "analysis" })
+	aliasStoreRule(w, r, func(rel string) bool { return rel == "analysis" })
 	r.Assumptions = []string{"reflect.StructTag.Get implements the conventional tag syntax"}
 	n := checkJSONConsumers(w, r, "CONS")
 	r.note("json_consumers", n)
